@@ -10,11 +10,15 @@ from harness import core, codec
 from harness.props import editing as ed
 
 RULE = ("(1) value tables: Nodes.typed_value on every text of length <= 3 over a 16-character alphabet plus a word list, and "
-        "Nodes.make_new_node / wrap_type over the full grid value x format x anchored-or-not, compared with the model; "
+        "Nodes.make_new_node / wrap_type over the full grid value x format x anchored-or-not, compared with the model - the texts "
+        "and values include TEXT SPELLED LIKE A PYTHON LITERAL: simple quoted string literals ('abc', \"two words\", ''), integer "
+        "look-alikes (an int for ast.literal_eval, a ValueError for int(): 0x1F, -0o17, 0b101, (1), (-12), - 5; a fixed list + 300 "
+        "seeded ones) and neighbours of both classes; "
         "(2) single edits: seeded random documents (repeated equal small ints and one-character strings, values equal to key "
         "names, anchored scalars aliased under map keys and inside sequences, sets and empty containers as bystanders) x paths "
         "built from the document (exact incl. negative indexes, wildcards, slices, searches, keyword searches incl. name(), "
-        "anchors, collectors) x new values of every scalar type x every modelled format: the matched nodes are gathered by the "
+        "anchors, collectors) x new values of every scalar type (10 % of them literal-looking texts as in (1): in the DEFAULT format "
+        "the set must go ahead and every target hold THAT TEXT, theorem literal_text_kept) x every modelled format: the matched nodes are gathered by the "
         "real evaluator on a twin, set_value(mustexist=True) runs on the real document, and the WHOLE document afterwards "
         "(canonical form incl. anchors) must equal the Lean specification setSpec (proved equal to the model); a quarter of the "
         "cases are also dumped with yamlpath's editor and reloaded with its strict loader and the data compared; "
